@@ -28,6 +28,7 @@ NOTES = {
  'C16': ('DESIGN.md 3/C16', 'documents built from a relay table by a reference builder; first via the real get_info_incremental(ns/all) reply path, later ones as real 650+NEWCONSENSUS events; one relay fully varied per document (presence, nickname, flags, a/w/p lines, bandwidth), a second sharing its nickname; identity codecs on 20-byte ids with one symbolic byte'),
  'C17': ('DESIGN.md 3/C17', 'TCPHiddenServiceEndpoint on a recording MemoryReactorClock, real onion-service creation against SimTor; a failure injected at each of 6 steps of listen() (ephemeral services); constructor option table; filesystem-service listen() outside'),
  'C18': ('DESIGN.md 3/C18', '_create_socks_endpoint and TorConfig.create_socks_endpoint against SimTor through the real protocol; existing configuration (0..2 entries of 5 forms) x request (7 kinds) chosen by the solver; SETCONF decoded by the reference kvline grammar; fallback ports with a connect-outcome double'),
+ 'C19': ('DESIGN.md 3/C19', 'real TorProcessProtocol with doubles for process transport, clock, control connection and control protocol; every causally possible sequence (5 from start / 4 after bootstrap quick; 6/5 thorough) of 13 event kinds, selected by a solver-chosen index; real launch() with reactor / file-system doubles for the temp-dir clause'),
  'C20': ('DESIGN.md 3/C20', 'datetime replaced by an int-backed shim validated against timedelta; integer-time task.Clock; TZ=UTC; <=3 steps, 2 names, offsets -10s..3d'),
 }
 PENDING_REASON = 'check not built yet (work in progress this round); no claim is made'
